@@ -439,7 +439,13 @@ impl<'a> Model<'a> {
                 });
             }
         }
+        if let Ret::Delegate(prog, ctx) = &spec.ret {
+            let c = mctx_of(ctx);
+            let t = self.parse(prog)?;
+            return self.eval_stmts(&t, &c);
+        }
         Ok(match &spec.ret {
+            Ret::Delegate(..) => unreachable!(),
             Ret::Marker => {
                 let mut xs = vec![Val::Str(format!("h{}", hid))];
                 xs.extend(args);
